@@ -349,9 +349,12 @@ def judgeCase (S : Schema) (inp obs : Json) : Except String Verdict := do
   -- ---------- spec: on the Go observations alone ----------
   let decOk (d : Dec) : Bool := d.ok && d.equal && d.unknown == 0 && d.same
   let mut specFails : List (String × String) := []
-  if !hasVT then specFails := specFails ++ [("no-vt-codec", "the message type has no MarshalVT/UnmarshalVT/SizeVT")]
-  if pbErr != "" then specFails := specFails ++ [("encoder-error:proto", s!"proto.Marshal failed ({pbErr})")]
-  if vtErr != "" then specFails := specFails ++ [("encoder-error:vt", s!"MarshalVT failed ({vtErr})")]
+  let buildErr := getStrD obs "build_err"
+  if buildErr != "" then
+    specFails := specFails ++ [("build", s!"the message cannot be constructed through protobuf reflection: {buildErr}")]
+  if !hasVT && buildErr == "" then specFails := specFails ++ [("no-vt-codec", "the message type has no MarshalVT/UnmarshalVT/SizeVT")]
+  if pbErr != "" && buildErr == "" then specFails := specFails ++ [("encoder-error:proto", s!"proto.Marshal failed ({pbErr})")]
+  if vtErr != "" && buildErr == "" then specFails := specFails ++ [("encoder-error:vt", s!"MarshalVT failed ({vtErr})")]
   if vtErr == "" && sizeVT != (vt.length : Int) then
     specFails := specFails ++ [("size", s!"SizeVT = {sizeVT} but MarshalVT wrote {vt.length} bytes")]
   for (k, d, txt) in [("cross:pb->vt", pb2vt, "UnmarshalVT(proto.Marshal(m))"),
